@@ -15,6 +15,7 @@ import Driver.C18Mon
 import Driver.C20Mon
 import Driver.C19Mon
 import Driver.C16Mon
+import Driver.C11Mon
 open Kv
 
 structure MState where
@@ -33,6 +34,7 @@ def dispatchMon (st : MState) (prop : String) (l : Line) : MState × String :=
   | "C02" => (st, Drv.C02.stepMon l)
   | "C12" => (st, Drv.C12.step l)
   | "C20" => (st, Drv.C20.stepMon l)
+  | "C11" => (st, Drv.C11.stepMon l)
   | "C04" => let (s, r) := Drv.Flow.stepMon "C04" st.c04 l; ({ st with c04 := s }, r)
   | "C07" => let (s, r) := Drv.Flow.stepMon "C07" st.c07 l; ({ st with c07 := s }, r)
   | "C14" => (st, Drv.C14.stepMon l)
